@@ -2,7 +2,6 @@
 use crate::types::*;
 use priority_queue::{DoublePriorityQueue, PriorityQueue};
 use std::fmt::Write as _;
-use std::hash::BuildHasher;
 
 #[derive(Clone, Copy, PartialEq, Eq, Debug)]
 pub enum Kind {
@@ -38,7 +37,7 @@ macro_rules! both {
     };
 }
 
-impl<H: BuildHasher + Default + Clone> AnyQ<H> {
+impl<H: HX> AnyQ<H> {
     pub fn new(kind: Kind) -> Self {
         match kind {
             Kind::Pq => AnyQ::Pq(PriorityQueue::with_default_hasher()),
@@ -224,6 +223,21 @@ pub enum Op {
     Eq(Vec<E>),
     CloneSwap,
     CloneCheck,
+    /// `(&q).into_iter()` / `(&mut q).into_iter()` instead of `q.iter()` / `q.iter_mut()` for the wrapped `Iter` / `IterMut`
+    ViaRef(Box<Op>),
+    /// replace the queue by a fresh one built by constructor `ctor` (0 `new`, 1 `with_capacity`, 2 `default`,
+    /// 3 `with_default_hasher`, 4 `with_capacity_and_default_hasher`, 5 `with_hasher`, 6 `with_capacity_and_hasher`)
+    Fresh(u8, u64),
+    /// `format!("{:?}", q)`: reported as the (slot, item, priority) triples in the order the text lists them
+    Dbg,
+    /// deserialize through a deserializer that answers `deserialize_seq` with `visit_unit` (serde's `UnitDeserializer`)
+    DeserUnit,
+    /// deserialize an ill-formed / ill-typed JSON text (variant `v` of a fixed table, built around the pairs): must be `Err`
+    DeserBad(u8, Vec<E>),
+    /// serialize into a writer that fails after `k` bytes (k < the length of the serialized text)
+    SerFail(u64),
+    /// `try_reserve` / `try_reserve_exact` (`exact`) in a process whose address space is limited (run by `pqharness oom`)
+    TryReserveOom(bool, u64),
     /// fault injection: run `op` with the k-th priority comparison (`cmp = 1`), the k-th user callback (`0`) or the
     /// k-th `Hash`/`Eq` call on an item (`2`) panicking
     Crash { cmp: u8, k: u64, op: Box<Op> },
@@ -314,6 +328,13 @@ impl Op {
             CloneSwap => "clone_swap",
             CloneCheck => "clone_check",
             Crash { .. } => "crash",
+            ViaRef(op) => op.name(),
+            Fresh(..) => "fresh",
+            Dbg => "dbg",
+            DeserUnit => "deser_unit",
+            DeserBad(..) => "deser_bad",
+            SerFail(_) => "ser_fail",
+            TryReserveOom(..) => "try_reserve_oom",
         }
     }
 
@@ -327,6 +348,7 @@ impl Op {
             }
             PopIf(..) => k == Kind::Dpq,
             Crash { op, .. } => op.valid_for(k),
+            ViaRef(op) => op.valid_for(k),
             _ => true,
         }
     }
@@ -336,6 +358,11 @@ impl Op {
         let n = self.name();
         match self {
             Crash { cmp, k, op } => format!("!{}{} {}", match *cmp { 1 => "cmp", 0 => "cb", _ => "hk" }, k, op.line()),
+            ViaRef(op) => format!("ref {}", op.line()),
+            Fresh(c, cap) => format!("{} {} {}", n, c, cap),
+            DeserBad(v, xs) => format!("{} {} {}", n, v, es(xs)),
+            SerFail(k) => format!("{} {}", n, k),
+            TryReserveOom(exact, k) => format!("{} {} {}", n, *exact as u8, k),
             Push(e) | PushIncrease(e) | PushDecrease(e) => format!("{} {} {} {}", n, e.0, e.1, e.2),
             ChangePriority(k, p) | ChangePriorityBy(k, p) => format!("{} {} {}", n, k, p),
             GetPriority(k) | Get(k) | Remove(k) => format!("{} {}", n, k),
@@ -368,6 +395,9 @@ impl Op {
             let (cmp, num) = if let Some(x) = head.strip_prefix("cmp") { (1u8, x) } else if let Some(x) = head.strip_prefix("cb") { (0u8, x) } else if let Some(x) = head.strip_prefix("hk") { (2u8, x) } else { return Err("bad crash prefix".into()) };
             let k: u64 = num.parse().map_err(|e| format!("{:?}", e))?;
             return Ok(Op::Crash { cmp, k, op: Box::new(Op::parse(tail)?) });
+        }
+        if let Some(rest) = line.strip_prefix("ref ") {
+            return Ok(Op::ViaRef(Box::new(Op::parse(rest)?)));
         }
         let mut t = Toks { t: line.split_whitespace().collect(), i: 0 };
         let name = t.tok()?;
@@ -434,6 +464,12 @@ impl Op {
             "eq" => Eq(t.es()?),
             "clone_swap" => CloneSwap,
             "clone_check" => CloneCheck,
+            "fresh" => Fresh(t.u()? as u8, t.u()?),
+            "dbg" => Dbg,
+            "deser_unit" => DeserUnit,
+            "deser_bad" => DeserBad(t.u()? as u8, t.es()?),
+            "ser_fail" => SerFail(t.u()?),
+            "try_reserve_oom" => TryReserveOom(t.u()? != 0, t.u()?),
             x => return Err(format!("unknown op {}", x)),
         };
         if t.i != t.t.len() {
@@ -621,7 +657,7 @@ fn hint_str(h: (usize, Option<usize>)) -> String {
 }
 
 /// Execute `op` on the real queue; returns the canonical result string.
-pub fn apply<H: BuildHasher + Default + Clone>(q: &mut AnyQ<H>, op: &Op, lk: Lookup) -> String {
+pub fn apply<H: HX>(q: &mut AnyQ<H>, op: &Op, lk: Lookup) -> String {
     use Op::*;
     // lookups go either through an owned item carrying a *different* payload, or through `&str`
     macro_rules! look {
@@ -650,6 +686,79 @@ pub fn apply<H: BuildHasher + Default + Clone>(q: &mut AnyQ<H>, op: &Op, lk: Loo
             }
             let _d = Disarm;
             apply(q, op, lk)
+        }
+        ViaRef(op) => {
+            VIA_REF.with(|v| v.set(true));
+            struct Off;
+            impl Drop for Off { fn drop(&mut self) { VIA_REF.with(|v| v.set(false)); } }
+            let _o = Off;
+            apply(q, op, lk)
+        }
+        Fresh(c, cap) => {
+            let cap = *cap as usize;
+            *q = match q.kind() {
+                Kind::Pq => AnyQ::Pq(match c {
+                    0 => H::pq_new(),
+                    1 => H::pq_with_capacity(cap),
+                    2 => Default::default(),
+                    3 => PriorityQueue::with_default_hasher(),
+                    4 => PriorityQueue::with_capacity_and_default_hasher(cap),
+                    5 => PriorityQueue::with_hasher(H::default()),
+                    _ => PriorityQueue::with_capacity_and_hasher(cap, H::default()),
+                }),
+                Kind::Dpq => AnyQ::Dpq(match c {
+                    0 => H::dpq_new(),
+                    1 => H::dpq_with_capacity(cap),
+                    2 => Default::default(),
+                    3 => DoublePriorityQueue::with_default_hasher(),
+                    4 => DoublePriorityQueue::with_capacity_and_default_hasher(cap),
+                    5 => DoublePriorityQueue::with_hasher(H::default()),
+                    _ => DoublePriorityQueue::with_capacity_and_hasher(cap, H::default()),
+                }),
+            };
+            cap_ok(q, if matches!(c, 1 | 4 | 6) { cap as u64 } else { 0 })
+        }
+        Dbg => {
+            let text = match q { AnyQ::Pq(x) => format!("{:?}", x), AnyQ::Dpq(x) => format!("{:?}", x) };
+            dbg_canon(&text)
+        }
+        DeserUnit => {
+            use serde::de::value::{Error as VErr, UnitDeserializer};
+            use serde::Deserialize;
+            let r: Result<AnyQ<H>, VErr> = match q.kind() {
+                Kind::Pq => PriorityQueue::<SItem, Pri, H>::deserialize(UnitDeserializer::<VErr>::new()).map(AnyQ::Pq),
+                Kind::Dpq => DoublePriorityQueue::<SItem, Pri, H>::deserialize(UnitDeserializer::<VErr>::new()).map(AnyQ::Dpq),
+            };
+            match r { Ok(n) => { *q = n; "ok".into() } Err(_) => "err".into() }
+        }
+        DeserBad(v, xs) => {
+            let text = bad_json(*v, xs);
+            let before = q.snapshot_core();
+            let r = deser_both(q, &text, q.kind());
+            if q.snapshot_core() != before { format!("{} but the queue changed", r) } else { r }
+        }
+        SerFail(k) => {
+            struct Failing { left: u64 }
+            impl std::io::Write for Failing {
+                fn write(&mut self, b: &[u8]) -> std::io::Result<usize> {
+                    if self.left == 0 { return Err(std::io::Error::new(std::io::ErrorKind::Other, "injected: writer full")); }
+                    let n = (b.len() as u64).min(self.left);
+                    self.left -= n;
+                    Ok(n as usize)
+                }
+                fn flush(&mut self) -> std::io::Result<()> { Ok(()) }
+            }
+            let full = both!(q, x => serde_json::to_string(&*x).unwrap());
+            let k = *k % (full.len() as u64);     // always fails before the end (the text is at least "[]")
+            let r = both!(q, x => serde_json::to_writer(Failing { left: k }, &*x));
+            match r { Ok(()) => "ok".into(), Err(_) => "err".into() }
+        }
+        TryReserveOom(exact, n) => {
+            let r = if *exact { both!(q, x => x.try_reserve_exact(*n as usize)) } else { both!(q, x => x.try_reserve(*n as usize)) };
+            match r {
+                Ok(()) => cap_ok(q, *n),
+                Err(e) => err_ok(&e),
+            }
         }
         Push(e) => opt_p(both!(q, x => x.push(SItem::new(e.0, e.1), Pri::new(e.2))).map(|p| p.0)),
         PushIncrease(e) => opt_p(both!(q, x => x.push_increase(SItem::new(e.0, e.1), Pri::new(e.2))).map(|p| p.0)),
@@ -769,7 +878,7 @@ pub fn apply<H: BuildHasher + Default + Clone>(q: &mut AnyQ<H>, op: &Op, lk: Loo
             }
             match q {
                 AnyQ::Pq(x) => {
-                    let mut slot = Some(x.iter_mut());
+                    let mut slot = Some(if VIA_REF.with(|v| v.get()) { (&mut *x).into_iter() } else { x.iter_mut() });
                     for (c, w) in prog {
                         let it = match slot.as_mut() { Some(i) => i, None => { out.push_str(" gone"); continue; } };
                         match c {
@@ -789,7 +898,7 @@ pub fn apply<H: BuildHasher + Default + Clone>(q: &mut AnyQ<H>, op: &Op, lk: Loo
                     if let Some(it) = slot { if *forget { std::mem::forget(it); } else { drop(it); } }
                 }
                 AnyQ::Dpq(x) => {
-                    let mut slot = Some(x.iter_mut());
+                    let mut slot = Some(if VIA_REF.with(|v| v.get()) { (&mut *x).into_iter() } else { x.iter_mut() });
                     for (c, w) in prog {
                         let it = match slot.as_mut() { Some(i) => i, None => { out.push_str(" gone"); continue; } };
                         match c {
@@ -880,7 +989,10 @@ pub fn apply<H: BuildHasher + Default + Clone>(q: &mut AnyQ<H>, op: &Op, lk: Loo
         }
         Clear => { both!(q, x => x.clear()); "unit".into() }
         Drain { forget, calls: cs } => both!(q, x => run_calls(x.drain(), cs, *forget, |(i, p): &(SItem, Pri)| ent(i, p))),
-        Iter(cs) => both!(q, x => run_calls(x.iter(), cs, false, |(i, p): &(&SItem, &Pri)| ent(i, p))),
+        Iter(cs) => {
+            let via = VIA_REF.with(|v| v.get());
+            both!(q, x => run_calls(if via { (&*x).into_iter() } else { x.iter() }, cs, false, |(i, p): &(&SItem, &Pri)| ent(i, p)))
+        }
         IntoIter(cs) => {
             let c = q.clone_q();
             both!(c, x => run_calls(x.into_iter(), cs, false, |(i, p): &(SItem, Pri)| ent(i, p)))
@@ -920,11 +1032,11 @@ pub fn apply<H: BuildHasher + Default + Clone>(q: &mut AnyQ<H>, op: &Op, lk: Loo
         }
         TryReserve(n) => match both!(q, x => x.try_reserve(*n as usize)) {
             Ok(()) => cap_ok(q, *n),
-            Err(_) => "err".into(),
+            Err(e) => err_ok(&e),
         },
         TryReserveExact(n) => match both!(q, x => x.try_reserve_exact(*n as usize)) {
             Ok(()) => cap_ok(q, *n),
-            Err(_) => "err".into(),
+            Err(e) => err_ok(&e),
         },
         ShrinkToFit => { both!(q, x => x.shrink_to_fit()); cap_ok(q, 0) }
         Capacity => cap_ok(q, 0),
@@ -977,7 +1089,7 @@ pub fn apply<H: BuildHasher + Default + Clone>(q: &mut AnyQ<H>, op: &Op, lk: Loo
 
 /// Deserialize `text` as a queue of kind `k` twice: from the JSON text (no length hint) and from a
 /// `serde_json::Value` (whose `SeqAccess` announces an exact length); both must agree.
-fn deser_both<H: BuildHasher + Default + Clone>(q: &mut AnyQ<H>, text: &str, k: Kind) -> String {
+fn deser_both<H: HX>(q: &mut AnyQ<H>, text: &str, k: Kind) -> String {
     fn two<T: serde::de::DeserializeOwned>(text: &str) -> (Result<T, ()>, Result<T, ()>) {
         let a = serde_json::from_str::<T>(text).map_err(|_| ());
         let saved = CMP.with(|c| c.get());
@@ -1000,7 +1112,75 @@ fn deser_both<H: BuildHasher + Default + Clone>(q: &mut AnyQ<H>, text: &str, k: 
     }
 }
 
-fn cap_ok<H: BuildHasher + Default + Clone>(q: &AnyQ<H>, n: u64) -> String {
+thread_local! {
+    /// set while a `ViaRef` operation runs
+    pub static VIA_REF: std::cell::Cell<bool> = std::cell::Cell::new(false);
+}
+
+/// a `TryReserveError` must be displayable, comparable and clonable without panicking
+fn err_ok(e: &priority_queue::TryReserveError) -> String {
+    let shown = format!("{}", e);
+    let dbg = format!("{:?}", e);
+    let is_err: &dyn std::error::Error = e;
+    if shown.is_empty() || dbg.is_empty() || e.clone() != *e || is_err.to_string() != shown {
+        format!("err-but-malformed-error {:?}", dbg)
+    } else {
+        "err".into()
+    }
+}
+
+/// `{Index(3): (SItem { name: "k7", payload: 0 }, Pri(5)), …}` (possibly wrapped in `PriorityQueue { store: … }`)
+/// -> `n (slot key payload prio)*`
+fn dbg_canon(text: &str) -> String {
+    let mut out = String::new();
+    let mut n = 0;
+    let mut rest = text;
+    while let Some(p) = rest.find("Index(") {
+        rest = &rest[p + 6..];
+        let num = |s: &str| -> (String, usize) {
+            let end = s.find(|c: char| !(c.is_ascii_digit() || c == '-')).unwrap_or(s.len());
+            (s[..end].to_string(), end)
+        };
+        let (slot, _) = num(rest);
+        let a = match rest.find("name: \"k") { Some(a) => a, None => return format!("unparsable {:?}", text) };
+        rest = &rest[a + 8..];
+        let (key, _) = num(rest);
+        let b = match rest.find("payload: ") { Some(b) => b, None => return format!("unparsable {:?}", text) };
+        rest = &rest[b + 9..];
+        let (pl, _) = num(rest);
+        let c = match rest.find("Pri(") { Some(c) => c, None => return format!("unparsable {:?}", text) };
+        rest = &rest[c + 4..];
+        let (pr, _) = num(rest);
+        write!(out, " {} {} {} {}", slot, key, pl, pr).unwrap();
+        n += 1;
+    }
+    format!("{}{}", n, out)
+}
+
+/// ill-formed / ill-typed JSON built around `xs` (a well-formed prefix of pairs makes the error surface only after some
+/// elements were already inserted)
+fn bad_json(v: u8, xs: &[E]) -> String {
+    let mut good = String::new();
+    for (k, pl, p) in xs.iter() {
+        write!(good, "[{{\"name\":\"k{}\",\"payload\":{}}},{}],", k, pl, p).unwrap();
+    }
+    match v % 12 {
+        0 => "5".into(),
+        1 => "{}".into(),
+        2 => format!("[{}[{{\"name\":\"k1\",\"payload\":0}},2]", good),            // unterminated
+        3 => format!("[{}[{{\"name\":\"k1\",\"payload\":0}},\"x\"]]", good),       // priority of the wrong type
+        4 => format!("[{}[{{\"name\":\"k1\"}},1]]", good),                          // item lacks a field
+        5 => format!("[{}1]", good),                                                // element is not a pair
+        6 => format!("[{}[{{\"name\":\"k1\",\"payload\":0}},1,2]]", good),           // triple
+        7 => "".into(),
+        8 => format!("[{}]", good),                                                 // trailing comma (or `[]` when xs is empty: handled by the caller's expectation)
+        9 => format!("[{}[{{\"name\":\"k1\",\"payload\":0}}]]", good),               // 1-tuple
+        10 => "\"A priority queue\"".into(),
+        _ => format!("[{}[{{\"name\":\"k1\",\"payload\":-1}},1]]", good),            // payload out of range for u64
+    }
+}
+
+fn cap_ok<H: HX>(q: &AnyQ<H>, n: u64) -> String {
     let cap = both!(q, x => x.capacity()) as u128;
     if cap >= q.len() as u128 + n as u128 {
         "capok".into()
